@@ -14,9 +14,9 @@ type sxInt struct{ v *big.Int }
 type sxStr struct{ s string }
 type sxList struct{ l []Sx }
 
-func I(n int) Sx      { return sxInt{big.NewInt(int64(n))} }
-func I64(n int64) Sx  { return sxInt{big.NewInt(n)} }
-func U64(n uint64) Sx { return sxInt{new(big.Int).SetUint64(n)} }
+func I(n int) Sx        { return sxInt{big.NewInt(int64(n))} }
+func I64(n int64) Sx    { return sxInt{big.NewInt(n)} }
+func U64(n uint64) Sx   { return sxInt{new(big.Int).SetUint64(n)} }
 func Big(n *big.Int) Sx { return sxInt{n} }
 func B(b bool) Sx {
 	if b {
@@ -24,8 +24,8 @@ func B(b bool) Sx {
 	}
 	return I(0)
 }
-func S(s string) Sx  { return sxStr{s} }
-func L(xs ...Sx) Sx  { return sxList{xs} }
+func S(s string) Sx { return sxStr{s} }
+func L(xs ...Sx) Sx { return sxList{xs} }
 func LS(ss []string) Sx {
 	l := make([]Sx, len(ss))
 	for i, s := range ss {
